@@ -185,6 +185,9 @@ ONE_SHOT_ROOTS = [("chartparse.metadata:Metadata.from_chart_lines", 1), ("chartp
                   ("chartparse.globalevents:GlobalEventsTrack.from_chart_lines", 1), ("chartparse.instrument:InstrumentTrack.from_chart_lines", 3)]
 
 
+ONE_SHOT_DICT_SOURCES = ("_partition_lines_by_data_section",)
+
+
 def _param_names(fnode):
     a = fnode.args
     return [x.arg for x in list(a.posonlyargs) + list(a.args)] , [x.arg for x in a.kwonlyargs]
@@ -356,6 +359,33 @@ def run(reg, idx, name, timeout_ms=None, seed=0):
             res["assumptions"].append("an Iterable argument yields its items once, in order (itertools.islice over a list: list[a:b])")
             targets = _one_shot_params(idx)
             obs.append(ob("fx/package/one-shot-iterator-parameters-found", len(targets) >= len(ONE_SHOT_ROOTS), targets))
+            # values of the dict returned by the section scanner are one-shot iterators too: where a
+            # function holds that dict, each value may be consumed once (per loop iteration for the
+            # loop variable of `for k, v in d.items()`, once overall for `d[<key>]`)
+            for key, info in sorted(idx.funcs.items()):
+                dicts = set()
+                for n in ast.walk(info.node):
+                    if isinstance(n, ast.Assign) and isinstance(n.value, ast.Call) and ast.unparse(n.value.func).split(".")[-1] in ONE_SHOT_DICT_SOURCES:
+                        dicts |= {t.id for t in n.targets if isinstance(t, ast.Name)}
+                if not dicts:
+                    continue
+                subs = {}
+                for n in ast.walk(info.node):
+                    if isinstance(n, ast.Subscript) and isinstance(n.value, ast.Name) and n.value.id in dicts and isinstance(n.ctx, ast.Load):
+                        subs[ast.unparse(n)] = subs.get(ast.unparse(n), 0) + 1
+                    if isinstance(n, (ast.For, ast.AsyncFor)) and isinstance(n.iter, ast.Call) and isinstance(n.iter.func, ast.Attribute) \
+                            and isinstance(n.iter.func.value, ast.Name) and n.iter.func.value.id in dicts and n.iter.func.attr in ("items", "values"):
+                        tv = n.target.elts[1] if (n.iter.func.attr == "items" and isinstance(n.target, ast.Tuple) and len(n.target.elts) == 2) else n.target
+                        if isinstance(tv, ast.Name):
+                            fake = ast.FunctionDef(name="_loop", args=ast.arguments(posonlyargs=[], args=[], kwonlyargs=[], kw_defaults=[], defaults=[]),
+                                                   body=n.body, decorator_list=[], lineno=n.lineno)
+                            once, multi = _consumptions(fake, tv.id)
+                            ok = once <= 1 and not multi
+                            obs.append(ob(f"fx/{key}/section-iterator-{tv.id}-consumed-at-most-once-per-iteration", ok,
+                                          f"{once} use(s) on one path of the loop body" + ("; " + "; ".join(multi) if multi else ""),
+                                          {"variable": tv.id, "uses_on_one_path": once, "repeatable_uses": multi}))
+                for text, cnt in sorted(subs.items()):
+                    obs.append(ob(f"fx/{key}/section-iterator-{text}-consumed-at-most-once", cnt <= 1, f"{cnt} occurrence(s)", {"expression": text, "occurrences": cnt}))
             for key, pn in targets:
                 info = idx.funcs[key]
                 if True:
